@@ -182,10 +182,21 @@ func c07Init(v reflect.Value, path string, tr *c07Track, r *rand.Rand) {
 			}
 		}
 	case reflect.Slice:
-		switch r.Intn(4) {
+		switch r.Intn(5) {
 		case 0: // nil
 		case 1:
 			v.Set(reflect.MakeSlice(v.Type(), 0, 0))
+		case 2:
+			// spare capacity: 3 elements in use, room for 9, guards behind the capacity
+			back := reflect.MakeSlice(v.Type(), 12, 12)
+			for i := 0; i < 12; i++ {
+				c07Init(back.Index(i), path+"["+strconv.Itoa(i)+"]", nil, r)
+			}
+			if tr != nil {
+				g := back.Slice(9, 12)
+				tr.guards = append(tr.guards, c07Guard{g, c07Snap(g), path + "[9:12] behind cap"})
+			}
+			v.Set(back.Slice3(0, 3, 9))
 		default:
 			back := reflect.MakeSlice(v.Type(), 4, 4)
 			for i := 0; i < 4; i++ {
@@ -501,7 +512,10 @@ func c07Value(r *rand.Rand, t reflect.Type, path string, addr map[string]bool, b
 			b.WriteString([]string{`""`, `"AQID"`, `"QUJDREVGRw=="`}[r.Intn(3)])
 			return
 		}
-		m := []int{0, 1, 2, 3, 5}[r.Intn(5)]
+		m := []int{0, 1, 2, 3, 5, 7, 9, 12}[r.Intn(8)]
+		if depth > 2 && m > 5 {
+			m = 5
+		}
 		b.WriteString("[")
 		for i := 0; i < m; i++ {
 			if i > 0 {
